@@ -26,6 +26,7 @@ import (
 	"fmt"
 	"os"
 	"path/filepath"
+	"runtime/debug"
 	"sort"
 	"strings"
 	"sync/atomic"
@@ -294,6 +295,12 @@ func (cr *crasher) checkImage(label string, e *expT, mutate func(img string) err
 	imageBusy.Store(true)
 	defer imageBusy.Store(false)
 	res := cr.judgeImage(label, e, img)
+	// known finding fields_log_zero_filled_tail_accepted: the image is a fields.idxl whose last (unacknowledged) entry has its
+	// full length but a zero-filled tail, and the recovered shard panics on / refuses the field of that entry (type byte 0)
+	if res != nil && len(res.Patterns) == 0 && strings.HasPrefix(label, "zero-filled fields.idxl append of Write") && len(e.W) > 0 &&
+		(strings.Contains(res.Msg, "influxql.DataType") || strings.Contains(res.Msg, "rejects a write") || strings.Contains(res.Msg, "read error")) {
+		res.Patterns = append(res.Patterns, "fields_log_zero_filled_tail_accepted")
+	}
 	if res != nil && len(res.Patterns) > 0 {
 		cr.known = append(cr.known, *res) // a known finding: the case goes on, anything else it shows is still reported
 		return nil
@@ -304,9 +311,17 @@ func (cr *crasher) checkImage(label string, e *expT, mutate func(img string) err
 	return res
 }
 
-func (cr *crasher) judgeImage(label string, e *expT, img string) *rt.Result {
+func (cr *crasher) judgeImage(label string, e *expT, img string) (out *rt.Result) {
 	i := cr.stepIdx
 	cc := cr.r.cc
+	defer func() {
+		// a panic of the code under test while it serves a recovered shard is a violation (with the crash point that led to it)
+		if p := recover(); p != nil {
+			res := rt.Fail(i, fmt.Sprintf("crash image at step %d (%s): the recovered shard panics: %v  [%s]\n%s", i, label, p, cc.describe(), debug.Stack()), fmt.Sprint(p), nil)
+			res.Kind = "panic"
+			out = &res
+		}
+	}()
 	env2 := &shardEnv{root: img}
 	if err := env2.open(); err != nil {
 		res := rt.Fail(i, fmt.Sprintf("crash image at step %d (%s): the shard does not open: %v  [%s]", i, label, err, cc.describe()), err.Error(), nil)
